@@ -81,7 +81,13 @@ def gen_par(rng, fam):
 
 def gen_x(rng, fam, par, k=4):
     fz = frozen(fam, par)
-    us = [rng.uniform(0.02, 0.98) for _ in range(k)]
+    us = [round(rng.uniform(0.02, 0.98), 6) for _ in range(k)]
+    if rng.random() < 0.35:
+        # far tails: probabilities down to 1e-15 and up to 1 - 1e-12 are valid arguments of q (and their quantiles
+        # valid arguments of d and p)
+        for j in range(rng.randint(1, k)):
+            e = rng.choice([3, 6, 9, 12, 15])
+            us[rng.randrange(k)] = 10.0 ** (-e) if (rng.random() < 0.6 or e > 12) else 1.0 - 10.0 ** (-e)
     xs = [float(fz.ppf(u)) for u in us]
     if FAMILIES[fam][1] == "c":
         xs = [round(v, 6) for v in xs]
@@ -107,7 +113,7 @@ def gen_case(S, tier):
                         "pre": rng.randint(0, 30), "mid": rng.randint(0, 30)})
         else:
             xs, us = gen_x(rng, fam, par)
-            ops.append({"op": "dpq", "fam": fam, "par": par, "x": xs, "u": [round(u, 6) for u in us],
+            ops.append({"op": "dpq", "fam": fam, "par": par, "x": xs, "u": list(us),
                         "vector": rng.random() < 0.5})
     batch = "fault_injecting" if any(o["op"] == "seeded" and (o["pre"] or o["mid"]) for o in ops) else "fault_free"
     return {"engine": "distn", "ops": ops, "batch": batch, "consume_seed": rng.randrange(2 ** 32)}
@@ -184,12 +190,16 @@ def execute(case):
                 us = op["u"]
                 want = fz.ppf(us)
                 got = getattr(ur, "q" + fam)(np.array(us, float), **par)
-                if not _close(got, want, rtol=1e-9):
+                if not _close(got, want, rtol=1e-9, atol=1e-300):      # quantiles near zero compare relatively
                     out.append(fail("C19.q.%s" % fam, step, "q%s(%s, %s) = %s, reference %s" % (fam, us, par, np.asarray(got).tolist(), np.asarray(want).tolist())))
                 elif have("p") and not disc:
-                    back = getattr(ur, "q" + fam)(call(ur, "p", fam, np.array(xs, float), par), **par)
-                    if not _close(back, xs, rtol=1e-6, atol=1e-9):
-                        out.append(fail("C19.qp.%s" % fam, step, "q%s(p%s(x)) = %s for x = %s" % (fam, fam, np.asarray(back).tolist(), xs)))
+                    # the round trip is only well conditioned away from the upper tail (1 - p is formed in floating
+                    # point): keep the points whose reference cdf is at most 0.999
+                    keep = [i_ for i_, x_ in enumerate(xs) if float(fz.cdf(x_)) <= 0.999]
+                    xs_rt = [xs[i_] for i_ in keep]
+                    back = getattr(ur, "q" + fam)(call(ur, "p", fam, np.array(xs_rt, float), par), **par) if xs_rt else []
+                    if xs_rt and not _close(back, xs_rt, rtol=1e-6, atol=1e-9):
+                        out.append(fail("C19.qp.%s" % fam, step, "q%s(p%s(x)) = %s for x = %s" % (fam, fam, np.asarray(back).tolist(), xs_rt)))
         except core.RunTimeout:
             raise
         except Exception as e:
